@@ -13,9 +13,10 @@ from .resolve import Ctx, Target
 
 class Item(object):
     """One escaping exception class with its witness chain and origin."""
-    __slots__ = ('exc', 'origin', 'chain', 'site_func', 'site_text')
+    __slots__ = ('exc', 'origin', 'chain', 'site_func', 'site_text', 'entry')
 
-    def __init__(self, exc, origin, chain, site_func, site_text):
+    def __init__(self, exc, origin, chain, site_func, site_text, entry=None):
+        self.entry = entry          # statement of the entry function through which it escapes (split_entry)
         self.exc = exc
         self.origin = origin        # explicit | assert | catalog | implicit | boundary | unknown
         self.chain = chain          # list of 'file:line func: construct'
@@ -23,10 +24,10 @@ class Item(object):
         self.site_text = site_text  # normalised construct at the raise site
 
     def via(self, frame):
-        return Item(self.exc, self.origin, [frame] + self.chain[:11], self.site_func, self.site_text)
+        return Item(self.exc, self.origin, [frame] + self.chain[:11], self.site_func, self.site_text, self.entry)
 
     def ident(self):
-        return (self.exc, self.site_func, self.site_text)
+        return (self.exc, self.site_func, self.site_text, self.entry)
 
     def __repr__(self):
         return '<%s from %s: %s>' % (self.exc, self.site_func, self.site_text)
@@ -45,7 +46,7 @@ METHOD_CATALOG = {}
 
 class Escape(object):
     def __init__(self, prog, resolver, boundaries=None, implicit=None, asserts=True,
-                 skip_funcs=(), method_catalog=None, catalog=None, max_depth=40):
+                 skip_funcs=(), method_catalog=None, catalog=None, max_depth=40, split_entry=False):
         self.p = prog
         self.r = resolver
         self.boundaries = boundaries or {}      # func qname -> list of exception keys (summary)
@@ -64,6 +65,7 @@ class Escape(object):
         self.unresolved_sites = []
         self.opaque_sites = []
         self.max_depth = max_depth
+        self.split_entry = split_entry      # key items additionally by the entry function's statement
 
     # ------------------------------------------------------------------ public
     def esc(self, func, ctx):
@@ -237,6 +239,14 @@ class Escape(object):
         for child in ast.iter_child_nodes(st):
             if isinstance(child, ast.expr):
                 self._merge(out, self._expr(child, env))
+        if self.split_entry and env['depth'] == 0 and out:
+            tag = head(st)
+            out = {}
+            for child in ast.iter_child_nodes(st):
+                if isinstance(child, ast.expr):
+                    for it in self._expr(child, env).values():
+                        it2 = Item(it.exc, it.origin, it.chain, it.site_func, it.site_text, tag)
+                        out.setdefault(it2.ident(), it2)
         # attribute stores on typed receivers trigger property setters
         if isinstance(st, (ast.Assign, ast.AugAssign)):
             targets = st.targets if isinstance(st, ast.Assign) else [st.target]
